@@ -808,6 +808,33 @@ class Builtins:
             hk = getattr(cx, "weakref_hook", None)
             if hk is not None:
                 return hk(I, args, st, k)
+        if name in ("all", "any") and len(args) == 1 and isinstance(args[0], VGen):
+            # all(... for x in <tuple display / known tuple>) : unfolded item by item with the short-circuit of the builtin
+            gen = args[0]
+            g = gen.node.generators[0]
+            if len(gen.node.generators) == 1 and not g.ifs and isinstance(g.target, ast.Name):
+                from .core import truth as _truth
+                want_all = name == "all"
+
+                def k_it(it, st2):
+                    if not isinstance(it, VTuple):
+                        raise Unsupported("%s() over %r" % (name, it))
+                    items = list(it.items)
+
+                    def go(i, st3):
+                        if i == len(items):
+                            return k(VBool(z3.BoolVal(want_all)), st3.with_env(st.env))
+                        env = dict(gen.env)
+                        env[g.target.id] = items[i]
+
+                        def k_el(v, st4):
+                            c = _truth(cx, v, st4)
+                            if want_all:
+                                return cx.branch(st4, c, lambda a: go(i + 1, a), lambda b: k(VBool(z3.BoolVal(False)), b.with_env(st.env)))
+                            return cx.branch(st4, c, lambda a: k(VBool(z3.BoolVal(True)), a.with_env(st.env)), lambda b: go(i + 1, b))
+                        return I.ev(gen.node.elt, st3.with_env(env), k_el)
+                    return go(0, st2)
+                return I.ev(g.iter, st.with_env(gen.env), k_it)
         hk = getattr(cx, "builtin_hook", None)
         if hk is not None:
             r = hk(I, name, args, kwargs, st, k)
